@@ -1,6 +1,7 @@
 (* C07 - a program that passes checking never fails or misbehaves at run time.
    Expression level: type soundness of the checker with respect to the evaluator. *)
 From HclV Require FrontSpec FrontWfSpec FrontWfProofs.
+From HclV Require TextLevelSpec TextLevelProofs.
 From HclV Require Import Base Expr ExprSpec ExprLemmas ExprProofs Machine MachineSpec SchedSpec SchedProofs Build BuildSpec Generated BuildProofs.
 Open Scope N_scope.
 
@@ -117,3 +118,11 @@ Theorem C07_drafts_for_arbitrary_bytes_refuted :
   ~ FrontSpec.stmt_lex_tokens_wf /\ ~ FrontSpec.stmt_text_to_program_ok.
 Proof. split; [exact FrontWfProofs.lex_tokens_wf_refuted | exact FrontWfProofs.text_to_program_ok_refuted]. Qed.
 Print Assumptions C07_drafts_for_arbitrary_bytes_refuted.
+
+(* ---- END TO END, from the program TEXT (TextLevelSpec.v / TextLevelProofs.v): the user's file (valid
+   UTF-8) after the compiled preamble, lexed with any Unicode classification, parsed with the compiled
+   tier table, built with the compiled component table; states = those reachable by loading an
+   image and stepping.  No hypothesis a user cannot check by reading the file. ------------------- *)
+Theorem C07_text_level : TextLevelSpec.stmt_text_statements_wf /\ TextLevelSpec.stmt_text_never_misbehaves.
+Proof. split; [exact TextLevelProofs.text_statements_wf_holds | exact TextLevelProofs.text_never_misbehaves_holds]. Qed.
+Print Assumptions C07_text_level.
